@@ -278,6 +278,12 @@ package env
 //@ ensures src1: e.values == old(e.values) && e.types == old(e.types)
 //@ ensures src2: mapdom(e.values) == old(mapdom(e.values))
 //@ ensures src3: mapvals(e.values) == old(mapvals(e.values))
+// content (one direction): everything the copy binds, the source binds to the same value / type - the copy never invents or
+// alters a binding. (That EVERY binding is copied needs a model of map iteration visiting all keys: not decided.)
+//@ ensures [C12] valsubset: forall k string :: has(result.values, k) ==> has(e.values, k) && result.values[k] == e.values[k]
+//@ ensures [C12] typesubset: forall k string :: has(result.types, k) ==> has(e.types, k) && result.types[k] == e.types[k]
+//@ loop 0 invariant [C12] valsubset: copy.values != nil && fresh(copy.values) && copy.types == nil && (forall k string :: has(copy.values, k) ==> has(e.values, k) && copy.values[k] == e.values[k])
+//@ loop 1 invariant [C12] typesubset: copy.types != nil && fresh(copy.types) && (e.values != nil ==> copy.values != nil && fresh(copy.values)) && (e.values == nil ==> copy.values == nil) && (forall k string :: has(copy.values, k) ==> has(e.values, k) && copy.values[k] == e.values[k]) && (forall k string :: has(copy.types, k) ==> has(e.types, k) && copy.types[k] == e.types[k])
 
 //@ func (*Env).DeepCopy
 //@ props C12
